@@ -109,6 +109,24 @@ func findOffsetInstances(p *core.Prog) []offsetInstance {
 						}
 					}
 				}
+				// V = next with next := V + L computed earlier in the same iteration (V untouched in between)
+				if addend == nil && ua.Tok == token.ASSIGN {
+					lv := core.ObjOf(info, ua.Lhs[0])
+					if wo := core.ObjOf(info, core.Unparen(ua.Rhs[0])); wo != nil && lv != nil && wo != lv {
+						if d := singleDef(f, wo); d != nil && d.Pos() >= inst.Loop.Pos() && d.Pos() < ua.Pos() {
+							if be, isB := core.Unparen(d).(*ast.BinaryExpr); isB && be.Op == token.ADD {
+								dn := g.NodeOf(d.Pos())
+								if dn != nil && g.Dominates(dn, u) && !reassignedBetween(g, info, dn, u, lv) {
+									if core.ObjOf(info, be.X) == lv {
+										addend = be.Y
+									} else if core.ObjOf(info, be.Y) == lv {
+										addend = be.X
+									}
+								}
+							}
+						}
+					}
+				}
 				if addend == nil {
 					continue
 				}
